@@ -16,14 +16,18 @@ Definition exch_R (dv pid : kid) (q : term) (s : sym) : Prop :=   (* peer initia
     Paper.initiation pid e (TPub dv) ts idx = Some (s0, m) /\
     Paper.response s0 eR (TPub e) (TPub pid) q ir ii = Some (s, rm).
 
-Definition kp_ok (dv pid : kid) (q : term) (k : keypair) : Prop :=
+Definition kp_ok1 (dv pid : kid) (q : term) (k : keypair) : Prop :=
   (kp_init k = true /\ exists s, exch_I dv pid q s /\ (kp_send k, kp_recv k) = Paper.initiator_keys s) \/
   (kp_init k = false /\ exists s, exch_R dv pid q s /\ (kp_send k, kp_recv k) = Paper.responder_keys s).
 
-Definition okp_ok (dv pid : kid) (q : term) (o : option keypair) : Prop :=
+(* ... under the device's current static key or one it had before (SetPrivateKey keeps the keypairs) *)
+Definition kp_ok (dvs : list kid) (pid : kid) (q : term) (k : keypair) : Prop :=
+  exists dv, In dv dvs /\ kp_ok1 dv pid q k.
+
+Definition okp_ok (dv : list kid) (pid : kid) (q : term) (o : option keypair) : Prop :=
   match o with Some k => kp_ok dv pid q k | None => True end.
 
-Definition slots_ok (dv pid : kid) (q : term) (s : slots) : Prop :=
+Definition slots_ok (dv : list kid) (pid : kid) (q : term) (s : slots) : Prop :=
   okp_ok dv pid q (previous s) /\ okp_ok dv pid q (current s) /\ okp_ok dv pid q (next s).
 
 (* between events the handshake is zeroed or holds the paper's initiator state *)
@@ -33,11 +37,12 @@ Definition hs_ok (dv : kid) (h : hs) : Prop :=
    exists ts idx s m, Paper.initiation dv (leph h) (TPub (rstatic h)) ts idx = Some (s, m) /\
                       hash h = H s /\ ck h = C s).
 
-Definition peer_ok (dv : kid) (p : peer) : Prop :=
+Definition peer_ok (dv : kid) (dvs : list kid) (p : peer) : Prop :=
   rstatic (p_hs p) = p_id p /\ ss (p_hs p) = dhn dv (p_id p) /\
-  hs_ok dv (p_hs p) /\ slots_ok dv (p_id p) (psk (p_hs p)) (p_kp p).
+  hs_ok dv (p_hs p) /\ slots_ok dvs (p_id p) (psk (p_hs p)) (p_kp p).
 
-Definition dev_ok (d : dev) : Prop := Forall (peer_ok (d_static d)) (d_peers d).
+Definition hist (d : dev) : list kid := d_static d :: d_olds d.
+Definition dev_ok (d : dev) : Prop := Forall (peer_ok (d_static d) (hist d)) (d_peers d).
 
 (* ---- list plumbing ---------------------------------------------------------- *)
 Lemma get_peer_in ps k p : get_peer ps k = Some p -> In p ps /\ p_id p = k.
@@ -85,7 +90,7 @@ Proof.
     now apply IH.
 Qed.
 
-Lemma upd_peer_ok d q : dev_ok d -> peer_ok (d_static d) q -> dev_ok (upd_peer d q).
+Lemma upd_peer_ok d q : dev_ok d -> peer_ok (d_static d) (hist d) q -> dev_ok (upd_peer d q).
 Proof.
   unfold dev_ok, upd_peer. cbn [d_static d_peers]. intros H Hq.
   induction (d_peers d) as [|p r IH]; cbn [map]; [constructor|].
@@ -96,7 +101,7 @@ Qed.
 Lemma upd_peer_static d q : d_static (upd_peer d q) = d_static d.
 Proof. reflexivity. Qed.
 
-Lemma dev_ok_in d p : dev_ok d -> In p (d_peers d) -> peer_ok (d_static d) p.
+Lemma dev_ok_in d p : dev_ok d -> In p (d_peers d) -> peer_ok (d_static d) (hist d) p.
 Proof. unfold dev_ok. rewrite Forall_forall. auto. Qed.
 
 Lemma dev_ok_peers_ok d : dev_ok d -> peers_ok (d_static d) (hs_list d).
@@ -137,14 +142,20 @@ Qed.
 Lemma zero_ok dv h : hs_ok dv (zero_handshake h).
 Proof. left. reflexivity. Qed.
 
-Lemma rotate_ok dv pid q k s : kp_ok dv pid q k -> slots_ok dv pid q s -> slots_ok dv pid q (rotate k s).
+Lemma okp_ok_mono l l' pid q o : incl l l' -> okp_ok l pid q o -> okp_ok l' pid q o.
+Proof. destruct o; cbn [okp_ok]; [|auto]. intros Hi (dv & Hin & H). exists dv. split; [now apply Hi|exact H]. Qed.
+
+Lemma okp_ok_expire l pid q o : okp_ok l pid q o -> okp_ok l pid q (expire_kp o).
+Proof. destruct o; cbn [okp_ok expire_kp]; [|auto]. intros (dv & Hin & H). exists dv. split; [exact Hin|exact H]. Qed.
+
+Lemma rotate_ok (dv : list kid) pid q k s : kp_ok dv pid q k -> slots_ok dv pid q s -> slots_ok dv pid q (rotate k s).
 Proof.
   intros Hk (Hp & Hc & Hn). unfold rotate. destruct (kp_init k).
   - destruct (next s) eqn:E; unfold slots_ok; cbn [previous current next okp_ok]; repeat split; auto.
   - unfold slots_ok; cbn [previous current next okp_ok]; repeat split; auto.
 Qed.
 
-Lemma received_with_ok dv pid q i s : slots_ok dv pid q s -> slots_ok dv pid q (fst (received_with i s)).
+Lemma received_with_ok (dv : list kid) pid q i s : slots_ok dv pid q s -> slots_ok dv pid q (fst (received_with i s)).
 Proof.
   intros (Hp & Hc & Hn). unfold received_with. destruct (next s) eqn:E; [|cbn; repeat split; auto; now rewrite E].
   destruct (kp_lidx k =? i); cbn [fst]; unfold slots_ok; cbn [previous current next okp_ok]; repeat split; auto.
@@ -160,7 +171,7 @@ Lemma responder_keypair_ok d m pid h1 er idx h2 r h3 s3 k p :
   get_peer (d_peers d) pid = Some p ->
   create_resp h1 er idx = Some (h2, r) ->
   begin_session h2 (p_kp p) = Some (h3, s3, k) ->
-  peer_ok (d_static d) (upd p h3 s3 (p_staged p)).
+  peer_ok (d_static d) (hist d) (upd p h3 s3 (p_staged p)).
 Proof.
   intros Hd Hc Hg Hr Hb. set (dv := d_static d) in *.
   pose proof (dev_ok_peers_ok d Hd) as Hpo. fold dv in Hpo.
@@ -185,6 +196,7 @@ Proof.
   unfold peer_ok. cbn [upd p_id p_hs p_kp zero_handshake rstatic ss psk]. rewrite ?Hid.
   split; [congruence|]. split; [congruence|]. split; [left; reflexivity|].
   rewrite Hpsk2, Hpsk1. apply rotate_ok; [|exact Hsl].
+  exists dv. split; [now left|].
   right. split; [exact Hinit|]. exists s2. split; [|exact Hkeys].
   rewrite He, Hrs1, Hrs, Hpsk1, Hri1 in Hpr.
   exists e, ts, (i_sender m), s, pm, er, idx, (i_sender m), (stamp_resp (TPub pid) None r). split; assumption.
@@ -195,7 +207,7 @@ Lemma initiator_keypair_ok d p m h1 h2 s2 k :
   dev_ok d -> In p (d_peers d) ->
   consume_resp (d_static d) (p_hs p) m = Some h1 ->
   begin_session h1 (p_kp p) = Some (h2, s2, k) ->
-  peer_ok (d_static d) (upd p h2 s2 0).
+  peer_ok (d_static d) (hist d) (upd p h2 s2 0).
 Proof.
   intros Hd Hin Hc Hb. set (dv := d_static d) in *.
   destruct (dev_ok_in d p Hd Hin) as (Hrs & Hss & Hhs & Hsl). fold dv in Hss, Hsl, Hhs.
@@ -211,13 +223,14 @@ Proof.
   unfold peer_ok. cbn [upd p_id p_hs p_kp zero_handshake rstatic ss psk].
   split; [congruence|]. split; [congruence|]. split; [left; reflexivity|].
   rewrite Hpsk1. apply rotate_ok; [|exact Hsl].
+  exists dv. split; [now left|].
   left. split; [exact Hinit|]. exists s'. split; [|exact Hkeys].
   rewrite Hrs in Hpi.
   exists (leph (p_hs p)), ts, idx, s, im, eR, (r_sender m), (r_receiver m), pm. split; assumption.
 Qed.
 
 Lemma send_initiation_ok d p e ts idx :
-  dev_ok d -> peer_ok (d_static d) p -> dev_ok (fst (send_initiation d p e ts idx)).
+  dev_ok d -> peer_ok (d_static d) (hist d) p -> dev_ok (fst (send_initiation d p e ts idx)).
 Proof.
   intros Hd (Hrs & Hss & Hhs & Hsl). unfold send_initiation.
   destruct (create_init (d_static d) (p_hs p) e ts idx) as [[h' m]|] eqn:Ec; cbn [fst]; [|exact Hd].
@@ -237,7 +250,7 @@ Qed.
 (* ---- the invariant ------------------------------------------------------------ *)
 Theorem dev_step_ok : forall d e, dev_ok d -> dev_ok (fst (dev_step d e)).
 Proof.
-  intros d e Hd. destruct e as [m er idx|m|receiver counter c|to e ts idx|to e ts idx| |receiver nonce c]; cbn [dev_step].
+  intros d e Hd. destruct e as [m er idx|m|receiver counter c|to e ts idx|to e ts idx| |receiver nonce c|new]; cbn [dev_step].
   - (* EInit *)
     destruct (negb (check_mac1 (d_static d) (init_body m) (i_mac1 m))); [exact Hd|].
     destruct (consume_init (d_static d) (hs_list d) false m) as [[pid h1]|] eqn:Ec; [|exact Hd].
@@ -273,11 +286,11 @@ Proof.
     destruct (get_peer (d_peers d) to) as [p|] eqn:Eg; [|exact Hd].
     destruct (get_peer_in _ _ _ Eg) as [Hin _].
     pose proof (dev_ok_in d p Hd Hin) as Hp.
-    destruct (current (p_kp p)).
-    + cbn [fst]. apply upd_peer_ok; [exact Hd|]. exact Hp.
-    + apply send_initiation_ok.
-      * apply upd_peer_ok; [exact Hd|]. exact Hp.
-      * exact Hp.
+    assert (Hs : dev_ok (fst (send_initiation (upd_peer d (upd p (p_hs p) (p_kp p) (p_staged p + 1)))
+                                (upd p (p_hs p) (p_kp p) (p_staged p + 1)) e ts idx))).
+    { apply send_initiation_ok; [apply upd_peer_ok; [exact Hd|]; exact Hp|exact Hp]. }
+    destruct (current (p_kp p)) as [k0|]; [destruct (kp_dead k0)|]; try exact Hs.
+    cbn [fst]. apply upd_peer_ok; [exact Hd|]. exact Hp.
   - (* EKick *)
     destruct (get_peer (d_peers d) to) as [p|] eqn:Eg; [|exact Hd].
     destruct (get_peer_in _ _ _ Eg) as [Hin _].
@@ -295,6 +308,17 @@ Proof.
     destruct (aead_open (cookie_key (TPub (p_id p))) nonce c t); [|exact Hd].
     cbn [fst]. apply upd_peer_ok; [exact Hd|].
     exact (dev_ok_in d p Hd (find_any_index_in _ _ _ Ef)).
+  - (* ESetPrivateKey *)
+    destruct (Nat.eqb new (d_static d) || existsb (fun p => Nat.eqb (p_id p) new) (d_peers d)); [exact Hd|].
+    cbn [fst]. unfold dev_ok, hist in *. cbn [d_static d_peers d_olds]. rewrite Forall_forall in *.
+    intros q Hq. apply in_map_iff in Hq. destruct Hq as (p & <- & Hin).
+    destruct (Hd p Hin) as (A & B & _ & (Sp & Sc & Sn)).
+    unfold peer_ok, rekey_peer. cbn [upd p_id p_hs p_kp clear_handshake rstatic ss psk st].
+    split; [exact A|]. split; [now rewrite A|]. split; [left; reflexivity|].
+    assert (Hi : incl (d_static d :: d_olds d) (new :: d_static d :: d_olds d)) by (intros x Hx; now right).
+    unfold slots_ok. cbn [previous current next].
+    split; [exact (okp_ok_mono _ _ _ _ _ Hi Sp)|].
+    split; apply okp_ok_expire; [exact (okp_ok_mono _ _ _ _ _ Hi Sc)|exact (okp_ok_mono _ _ _ _ _ Hi Sn)].
 Qed.
 
 Theorem no_session_with_stranger : forall (d : dev) (evs : list ev),
@@ -304,7 +328,8 @@ Proof. intros d evs H. revert d H. apply (final_inv dev_step dev_ok). intros s o
 (* a freshly configured device satisfies the invariant *)
 Lemma fresh_dev_ok dv (conf : list (kid * term)) :
   dev_ok {| d_static := dv;
-            d_peers := map (fun kp => new_peer (fst kp) (new_handshake (Some dv) (fst kp) (snd kp))) conf |}.
+            d_peers := map (fun kp => new_peer (fst kp) (new_handshake (Some dv) (fst kp) (snd kp))) conf;
+            d_olds := [] |}.
 Proof.
   unfold dev_ok. cbn [d_static d_peers]. induction conf as [|[k q] r IH]; cbn [map]; constructor; [|exact IH].
   unfold peer_ok. cbn. repeat split; auto. left. reflexivity.
@@ -318,8 +343,8 @@ Qed.
    configured with.  Hence the keypair invariant above, which speaks about
    [psk (p_hs p)], speaks about the CONFIGURED preshared key, also after
    restarts: psk_mismatch_no_session continues to hold. *)
-Definition static_of (h : hs) : term * kid * term := (psk h, rstatic h, ss h).
-Definition view (d : dev) (k : kid) : option (term * kid * term) :=
+Definition static_of (h : hs) : term * kid := (psk h, rstatic h).
+Definition view (d : dev) (k : kid) : option (term * kid) :=
   option_map (fun p => static_of (p_hs p)) (get_peer (d_peers d) k).
 Definition ids (d : dev) : list kid := map p_id (d_peers d).
 
@@ -376,8 +401,8 @@ Proof.
   unfold begin_session. destruct (derive_keypair h); [|discriminate]. intros H; inversion H; subst. reflexivity.
 Qed.
 
-Lemma static_eq h h' : psk h' = psk h -> rstatic h' = rstatic h -> ss h' = ss h -> static_of h' = static_of h.
-Proof. unfold static_of. intros -> -> ->. reflexivity. Qed.
+Lemma static_eq h h' : psk h' = psk h -> rstatic h' = rstatic h -> static_of h' = static_of h.
+Proof. unfold static_of. intros -> ->. reflexivity. Qed.
 
 Lemma send_initiation_view d p e ts idx k :
   agrees d p ->
@@ -393,7 +418,7 @@ Qed.
 Theorem dev_step_view : forall d e k, NoDup (ids d) ->
   view (fst (dev_step d e)) k = view d k /\ ids (fst (dev_step d e)) = ids d.
 Proof.
-  intros d e k Hn. destruct e as [m er idx|m|receiver counter c|to e ts idx|to e ts idx| |receiver nonce c]; cbn [dev_step].
+  intros d e k Hn. destruct e as [m er idx|m|receiver counter c|to e ts idx|to e ts idx| |receiver nonce c|new]; cbn [dev_step].
   - (* EInit *)
     destruct (negb (check_mac1 (d_static d) (init_body m) (i_mac1 m))); [split; reflexivity|].
     destruct (consume_init (d_static d) (hs_list d) false m) as [[pid h1]|] eqn:Ec; [|split; reflexivity].
@@ -428,12 +453,16 @@ Proof.
     destruct (get_peer (d_peers d) to) as [p|] eqn:Eg; [|split; reflexivity].
     destruct (get_peer_in _ _ _ Eg) as [Hin _].
     assert (Ha : agrees d (upd p (p_hs p) (p_kp p) (p_staged p + 1))) by (apply (agrees_of_in d p); auto).
-    destruct (current (p_kp p)).
-    + cbn [fst]. split; [|apply upd_peer_ids]. apply upd_peer_view. apply (agrees_of_in d p); auto.
-    + destruct (send_initiation_view (upd_peer d (upd p (p_hs p) (p_kp p) (p_staged p + 1)))
+    assert (Hs : view (fst (send_initiation (upd_peer d (upd p (p_hs p) (p_kp p) (p_staged p + 1)))
+                              (upd p (p_hs p) (p_kp p) (p_staged p + 1)) e ts idx)) k = view d k /\
+                 ids (fst (send_initiation (upd_peer d (upd p (p_hs p) (p_kp p) (p_staged p + 1)))
+                             (upd p (p_hs p) (p_kp p) (p_staged p + 1)) e ts idx)) = ids d).
+    { destruct (send_initiation_view (upd_peer d (upd p (p_hs p) (p_kp p) (p_staged p + 1)))
                   (upd p (p_hs p) (p_kp p) (p_staged p + 1)) e ts idx k) as [V I].
       { apply agrees_upd; auto. }
-      rewrite V, I. split; [now apply upd_peer_view|apply upd_peer_ids].
+      rewrite V, I. split; [now apply upd_peer_view|apply upd_peer_ids]. }
+    destruct (current (p_kp p)) as [k0|]; [destruct (kp_dead k0)|]; try exact Hs.
+    cbn [fst]. split; [|apply upd_peer_ids]. apply upd_peer_view. apply (agrees_of_in d p); auto.
   - (* EKick *)
     destruct (get_peer (d_peers d) to) as [p|] eqn:Eg; [|split; reflexivity].
     destruct (get_peer_in _ _ _ Eg) as [Hin _].
@@ -450,6 +479,12 @@ Proof.
     destruct (aead_open (cookie_key (TPub (p_id p))) nonce c t); [|split; reflexivity].
     cbn [fst]. split; [|apply upd_peer_ids]. apply upd_peer_view.
     apply (agrees_of_in d p); auto. eapply find_any_index_in; eauto.
+  - (* ESetPrivateKey *)
+    destruct (Nat.eqb new (d_static d) || existsb (fun p => Nat.eqb (p_id p) new) (d_peers d)); [split; reflexivity|].
+    cbn [fst]. unfold view, ids. cbn [d_peers]. split.
+    + induction (d_peers d) as [|a r IH]; cbn [map get_peer]; [reflexivity|].
+      cbn [rekey_peer upd p_id]. destruct (Nat.eqb (p_id a) k); [reflexivity|]. apply IH.
+    + rewrite map_map. reflexivity.
 Qed.
 
 Theorem restart_keeps_psk_and_identity : forall (d : dev) (evs : list ev) (k : kid),
@@ -467,7 +502,7 @@ Qed.
 Corollary psk_is_configured : forall (d : dev) (evs : list ev) (p : peer),
   NoDup (ids d) -> In p (d_peers (final dev_step d evs)) ->
   exists p0, In p0 (d_peers d) /\ p_id p0 = p_id p /\ psk (p_hs p) = psk (p_hs p0) /\
-             rstatic (p_hs p) = rstatic (p_hs p0) /\ ss (p_hs p) = ss (p_hs p0).
+             rstatic (p_hs p) = rstatic (p_hs p0).
 Proof.
   intros d evs p Hn Hin.
   assert (Hi : ids (final dev_step d evs) = ids d).
@@ -486,4 +521,34 @@ Proof.
   destruct (get_peer (d_peers d) (p_id p)) as [p0|] eqn:Eg; cbn [option_map] in Hv; [|discriminate].
   destruct (get_peer_in _ _ _ Eg) as [Hin0 Hid0].
   exists p0. unfold static_of in Hv. inversion Hv. auto.
+Qed.
+
+(* The cached static-static secret follows the identity: after ANY history --
+   handshakes, restarts, cookie replies, private-key changes -- every peer's
+   precomputedStaticStatic is DH(the device's CURRENT static key, that peer's
+   static key), and remoteStatic is that peer's key.  Hence the theorems about
+   create_init / consume_init (which assume exactly this: [peers_ok]) and with
+   them handshake_completes_mirrored apply under the new identity. *)
+Theorem ss_follows_identity : forall (d : dev) (evs : list ev),
+  dev_ok d ->
+  let d' := final dev_step d evs in
+  peers_ok (d_static d') (hs_list d') /\
+  forall p, In p (d_peers d') -> rstatic (p_hs p) = p_id p /\ ss (p_hs p) = dhn (d_static d') (p_id p).
+Proof.
+  intros d evs Hd d'. pose proof (no_session_with_stranger d evs Hd) as H. fold d' in H.
+  split; [now apply dev_ok_peers_ok|].
+  intros p Hin. destruct (dev_ok_in d' p H Hin) as (A & B & _). split; assumption.
+Qed.
+
+(* the identity the device ends with is the last key set (or the initial one) *)
+Lemma set_private_key_identity d new :
+  new <> d_static d -> (forall p, In p (d_peers d) -> p_id p <> new) ->
+  d_static (fst (dev_step d (ESetPrivateKey new))) = new.
+Proof.
+  intros H1 H2. cbn [dev_step].
+  assert (Nat.eqb new (d_static d) = false) as -> by now apply Nat.eqb_neq.
+  assert (existsb (fun p => Nat.eqb (p_id p) new) (d_peers d) = false) as ->.
+  { destruct (existsb _ _) eqn:E; [|reflexivity]. apply existsb_exists in E. destruct E as (p & Hin & E).
+    apply Nat.eqb_eq in E. exfalso. exact (H2 p Hin E). }
+  reflexivity.
 Qed.
